@@ -18,7 +18,9 @@ def build(tier, ctx):
     n = 5 if tier == "quick" else 7
     defs = pvcommon.scope_defs(ctx["repo"], n)
     defs += [("F+", d) for d in fragment.F_plus_extra(n - 1)]
-    defs += pvcommon.extended_defs(5 if tier == "quick" else 6)
+    defs += pvcommon.extended_defs(5 if tier == "quick" else 6,
+                                   stretched=(4, 10) if tier == "quick"
+                                   else (5, 10))
     defs += pvcommon.skeleton_defs(tier)
     tasks = [{"name": nm, "defn": dsl.to_list(d), "k": 2,
               "pres": ["canonical", "reversed"], "mode": "c05"}
@@ -37,9 +39,10 @@ def collect(tier, tasks, results, ctx):
                {"runs": [], "jobs": 0, "states": 0, "transitions": 0}
                for r in results]
     bounds = {"tier": tier,
-              "definitions": ("F_5 + multi-start variants + 63 corpus"
-                              if tier == "quick" else
-                              "F_7 + multi-start variants + 63 corpus"),
+              "definitions": ("F_5" if tier == "quick" else "F_7") +
+              " + multi-start variants + 63 corpus + C01's extended "
+              "families and skeletons; small definitions again under "
+              "realistic event names (counts: tasks_per_family)",
               "presentations": ["canonical", "reversed"]}
     rule = ("every definition of F+ (F plus variants with several start "
             "events) and the corpus; the emitted text is parsed by a strict "
